@@ -11,7 +11,8 @@ pub const HS_SECRET_B: &[u8] = b"sim-hs256-issuer-secret-B-fedcba9876543210";
 pub const ISSUER_KEYS: &[&str] = &["ecA", "ecB", "edA", "hsA"];
 /// Holder keys (ecC, edB) and attacker / non-holder keys (ecD, edC).
 pub const HOLDER_KEYS: &[&str] = &["ecC", "edB"];
-pub const ALL_KEYS: &[&str] = &["ecA", "ecB", "ecC", "ecD", "edA", "edB", "edC", "hsA", "hsB"];
+pub const ALL_KEYS: &[&str] = &["ecA", "ecB", "ecC", "ecD", "edA", "edB", "edC", "hsA", "hsB", "rsA", "rsB", "e3A"];
+// rsA: RSA-2048 issuer key, rsB: RSA-2048 holder key (RS256/384/512, PS256/384/512), e3A: P-384 (ES384)
 
 /// A key id may carry a JWK `kid` label after '#': "ecC#k1" is key ecC whose JWK says kid=k1.
 pub fn base(id: &str) -> &str {
@@ -25,8 +26,31 @@ pub fn kid_of(id: &str) -> Option<&str> {
 pub fn alg_of(id: &str) -> &'static str {
     match &id[..2] {
         "ec" => "ES256",
+        "e3" => "ES384",
         "ed" => "EdDSA",
+        "rs" => "RS256",
         _ => "HS256",
+    }
+}
+
+/// Key family of a roster key: "ec" (P-256 and P-384), "ed", "rs", "hs".
+pub fn family_of_key(id: &str) -> &'static str {
+    match &id[..2] {
+        "ec" | "e3" => "ec",
+        "ed" => "ed",
+        "rs" => "rs",
+        _ => "hs",
+    }
+}
+
+/// Is `alg` an algorithm this key can legitimately sign with?
+pub fn alg_fits_key(alg: &str, id: &str) -> bool {
+    match &id[..2] {
+        "ec" => alg == "ES256",
+        "e3" => alg == "ES384",
+        "ed" => alg == "EdDSA",
+        "rs" => matches!(alg, "RS256" | "RS384" | "RS512" | "PS256" | "PS384" | "PS512"),
+        _ => matches!(alg, "HS256" | "HS384" | "HS512"),
     }
 }
 
@@ -35,7 +59,7 @@ pub fn family_of_alg(alg: &str) -> &'static str {
         "ES256" | "ES384" => "ec",
         "EdDSA" => "ed",
         "HS256" | "HS384" | "HS512" => "hs",
-        "RS256" | "RS384" | "RS512" | "PS256" | "PS384" | "PS512" => "rsa",
+        "RS256" | "RS384" | "RS512" | "PS256" | "PS384" | "PS512" => "rs",
         _ => "?",
     }
 }
@@ -49,6 +73,9 @@ fn priv_pem(id: &str) -> &'static str {
         "edA" => EDA_PRIV,
         "edB" => EDB_PRIV,
         "edC" => EDC_PRIV,
+        "rsA" => RSA_PRIV,
+        "rsB" => RSB_PRIV,
+        "e3A" => E3A_PRIV,
         _ => panic!("no private pem for {}", id),
     }
 }
@@ -62,6 +89,9 @@ pub fn pub_pem(id: &str) -> &'static str {
         "edA" => EDA_PUB,
         "edB" => EDB_PUB,
         "edC" => EDC_PUB,
+        "rsA" => RSA_PUB,
+        "rsB" => RSB_PUB,
+        "e3A" => E3A_PUB,
         _ => panic!("no public pem for {}", id),
     }
 }
@@ -75,6 +105,9 @@ pub fn jwk_str(id: &str) -> &'static str {
         "edA" => EDA_JWK,
         "edB" => EDB_JWK,
         "edC" => EDC_JWK,
+        "rsA" => RSA_JWK,
+        "rsB" => RSB_JWK,
+        "e3A" => E3A_JWK,
         _ => panic!("no jwk for {}", id),
     }
 }
@@ -98,16 +131,18 @@ pub fn jwk(id: &str) -> jsonwebtoken::jwk::Jwk {
 
 pub fn enc_key(id: &str) -> EncodingKey {
     match &id[..2] {
-        "ec" => EncodingKey::from_ec_pem(priv_pem(id).as_bytes()).expect("ec pem"),
+        "ec" | "e3" => EncodingKey::from_ec_pem(priv_pem(id).as_bytes()).expect("ec pem"),
         "ed" => EncodingKey::from_ed_pem(priv_pem(id).as_bytes()).expect("ed pem"),
+        "rs" => EncodingKey::from_rsa_pem(priv_pem(id).as_bytes()).expect("rsa pem"),
         _ => EncodingKey::from_secret(hs_secret(id)),
     }
 }
 
 pub fn dec_key(id: &str) -> DecodingKey {
     match &id[..2] {
-        "ec" => DecodingKey::from_ec_pem(pub_pem(id).as_bytes()).expect("ec pub pem"),
+        "ec" | "e3" => DecodingKey::from_ec_pem(pub_pem(id).as_bytes()).expect("ec pub pem"),
         "ed" => DecodingKey::from_ed_pem(pub_pem(id).as_bytes()).expect("ed pub pem"),
+        "rs" => DecodingKey::from_rsa_pem(pub_pem(id).as_bytes()).expect("rsa pub pem"),
         _ => DecodingKey::from_secret(hs_secret(id)),
     }
 }
@@ -122,9 +157,15 @@ pub fn hs_secret(id: &str) -> &'static [u8] {
 
 /// Which roster key (if any) a `cnf.jwk` value denotes.
 pub fn key_id_of_jwk(v: &Value) -> Option<&'static str> {
-    for id in ["ecA", "ecB", "ecC", "ecD", "edA", "edB", "edC"] {
+    for id in ["ecA", "ecB", "ecC", "ecD", "edA", "edB", "edC", "e3A"] {
         let j = jwk_value(id);
         if v.get("x").is_some() && v.get("x") == j.get("x") && v.get("kty") == j.get("kty") && v.get("y") == j.get("y") {
+            return Some(id);
+        }
+    }
+    for id in ["rsA", "rsB"] {
+        let j = jwk_value(id);
+        if v.get("n").is_some() && v.get("n") == j.get("n") && v.get("kty") == j.get("kty") {
             return Some(id);
         }
     }
@@ -142,6 +183,12 @@ pub fn pub_der(id: &str) -> Vec<u8> {
 /// (0x04 || X || Y) or the 32-byte Ed25519 public key.
 pub fn pub_raw(id: &str) -> Vec<u8> {
     let der = pub_der(id);
-    let n = if id.starts_with("ec") { 65 } else { 32 };
+    let n = match &id[..2] {
+        "ec" => 65,
+        "e3" => 97,
+        // RSA: what DecodingKey::from_rsa_pem keeps is the PKCS#1 RSAPublicKey inside the SPKI
+        "rs" => der.len().saturating_sub(24),
+        _ => 32,
+    };
     der[der.len().saturating_sub(n)..].to_vec()
 }
